@@ -266,6 +266,8 @@ pub struct RunSpec {
     pub min_nontrivial: u64,
     pub rayon_threads: Vec<usize>,
     pub extra_coverage: Map<String, Value>,
+    /// per build variant: run only the first n cases (sanitizer builds are slow)
+    pub variant_case_limit: BTreeMap<String, u64>,
 }
 
 struct W {
@@ -297,6 +299,10 @@ fn exe_for(variant: &str) -> PathBuf {
     let me = std::env::current_exe().unwrap();
     // .../target/<profile>/vmon
     let target = me.parent().unwrap().parent().unwrap();
+    if variant == "tsan" {
+        // built by ./check with -Zsanitizer=thread -Zbuild-std into harness/target-tsan
+        return target.parent().unwrap().join("target-tsan/x86_64-unknown-linux-gnu/release/vmon");
+    }
     target.join(variant).join("vmon")
 }
 
@@ -318,6 +324,10 @@ fn spawn(spec: &RunSpec, variant: &str, first: u64, step: u64, end: u64, outfile
         .arg(variant)
         .env("RAYON_NUM_THREADS", threads.to_string())
         .env("RUST_BACKTRACE", "0")
+        .env(
+            "TSAN_OPTIONS",
+            format!("halt_on_error=0 exitcode=0 second_deadlock_stack=1 log_path={}", outfile.with_extension("tsan").display()),
+        )
         .stdin(Stdio::null())
         .stdout(Stdio::null())
         .stderr(Stdio::from(errfile))
@@ -452,7 +462,8 @@ pub fn run(spec: &RunSpec) -> i32 {
         for k in 0..n {
             let outfile = run_dir.join(format!("w-{}-{}.jsonl", variant, k));
             let threads = spec.rayon_threads[k % spec.rayon_threads.len()];
-            let child = spawn(spec, variant, k as u64, n as u64, spec.cases, &outfile, threads);
+            let end = spec.variant_case_limit.get(variant).copied().unwrap_or(spec.cases).min(spec.cases);
+            let child = spawn(spec, variant, k as u64, n as u64, end, &outfile, threads);
             workers.push(W {
                 child,
                 outfile,
@@ -460,7 +471,7 @@ pub fn run(spec: &RunSpec) -> i32 {
                 buf: String::new(),
                 variant: variant.clone(),
                 step: n as u64,
-                end: spec.cases,
+                end,
                 current: None,
                 budget: spec.cpu_budget_s,
                 last_case_done: None,
@@ -548,7 +559,8 @@ pub fn run(spec: &RunSpec) -> i32 {
             // CPU budget
             if let Some((case, cpu0, wall0)) = w.current {
                 let cpu = cpu_seconds(w.child.id()).unwrap_or(cpu0);
-                if cpu - cpu0 > w.budget {
+                let factor = if w.variant == "tsan" { 20.0 } else { 1.0 }; // sanitizer builds are slow
+                if cpu - cpu0 > w.budget * factor {
                     let bt1 = gdb_backtrace(w.child.id());
                     std::thread::sleep(Duration::from_millis(1500));
                     let bt2 = gdb_backtrace(w.child.id());
@@ -672,6 +684,32 @@ fn absorb(spec: &RunSpec, agg: &mut Agg, v: &Value, _variant: &str) {
 }
 
 fn finish(spec: &RunSpec, agg: Agg, t0: Instant, wall_exceeded: bool, run_dir: &Path) -> i32 {
+    // ThreadSanitizer reports of sanitizer-variant workers: verdict bearing only if a frame lies in
+    // the repository, otherwise informational
+    let mut agg = agg;
+    let mut tsan_reports = 0u64;
+    let mut tsan_repo_reports = 0u64;
+    if let Ok(rd) = fs::read_dir(run_dir) {
+        for e in rd.flatten() {
+            let name = e.file_name().to_string_lossy().to_string();
+            if !name.contains(".tsan") {
+                continue;
+            }
+            let text = fs::read_to_string(e.path()).unwrap_or_default();
+            for block in text.split("WARNING: ThreadSanitizer:").skip(1) {
+                tsan_reports += 1;
+                let kind = block.lines().next().unwrap_or("").trim().split(" (").next().unwrap_or("").replace(' ', "_");
+                if let Some(frame) = block.lines().find(|l| l.contains("/repo/")) {
+                    tsan_repo_reports += 1;
+                    let loc = frame.split("/repo/").nth(1).unwrap_or("").split_whitespace().next().unwrap_or("");
+                    let loc: String = loc.split(':').take(2).collect::<Vec<_>>().join(":");
+                    let sig = format!("tsan.{}@{}", kind, loc);
+                    let e = agg.viols.entry(sig).or_insert((0, block.lines().take(30).collect::<Vec<_>>().join("\n"), e.path().to_string_lossy().to_string()));
+                    e.0 += 1;
+                }
+            }
+        }
+    }
     let known = load_known();
     let mut unlisted: Vec<(&String, &(u64, String, String))> = Vec::new();
     let mut listed: Vec<String> = Vec::new();
@@ -700,6 +738,9 @@ fn finish(spec: &RunSpec, agg: Agg, t0: Instant, wall_exceeded: bool, run_dir: &
     coverage.insert("violation_signatures".into(), json!(agg.viols.iter().map(|(s, i)| json!({"signature": s, "count": i.0})).collect::<Vec<_>>()));
     coverage.insert("violations_of_other_properties_seen".into(), json!(agg.other_prop_viols));
     coverage.insert("build_variants".into(), json!(spec.variants));
+    if spec.variants.iter().any(|v| v == "tsan") {
+        coverage.insert("thread_sanitizer".into(), json!({"reports_total": tsan_reports, "reports_with_a_repository_frame": tsan_repo_reports, "note": "supplementary tripwire: only reports with a frame in /repo count as violations"}));
+    }
     coverage.insert("workers".into(), json!(spec.workers));
     coverage.insert("cpu_budget_s_per_case".into(), json!(spec.cpu_budget_s));
     coverage.insert("slowest_case_ms".into(), json!(agg.max_case_ms));
